@@ -73,6 +73,30 @@ def run(ctx):
     ops, meta = rt.run_recorded(ctx, rt.UNSTRAT, ctx.n(90, 1500))
     outs = run_model(ops)
     rt.compare_recorded(ctx, ops, meta, outs, "unstratified-model-vs-impl")
+    # ---- observed statistic exactly 0 while the permutation distribution is not symmetric about 0 (unequal sizes, skewed pooled data):
+    #      the exact two-sided value is 2 * min(P(T <= 0), P(T >= 0)) < 1, computed over all C(N, nx) allocations
+    import itertools as _it
+    from fractions import Fraction as _Fr
+    from permute import core as _core
+    for xs, ys in (([0, 0, 0, 4], [1, 1]), ([0, 0, 0, 8], [2, 2]), ([1, 1], [0, 0, 0, 4]), ([0, 0, 0, 0, 5], [1, 1, 1])):
+        pool = xs + ys; nx_ = len(xs)
+        tv = []
+        for sub in _it.combinations(range(len(pool)), nx_):
+            u = [pool[i] for i in sub]; v = [pool[i] for i in range(len(pool)) if i not in sub]
+            tv.append(_Fr(sum(u), len(u)) - _Fr(sum(v), len(v)))
+        lo_ = _Fr(sum(1 for t in tv if t <= 0), len(tv)); up_ = _Fr(sum(1 for t in tv if t >= 0), len(tv)); exact = min(_Fr(1), 2 * min(lo_, up_))
+        for keep_, fn_ in ((False, "two_sample"), (True, "two_sample"), (False, "two_sample_shift")):
+            reps_ = 3000
+            if fn_ == "two_sample":
+                r = guarded(_core.two_sample, np.array(xs, dtype=float), np.array(ys, dtype=float), reps=reps_, stat="mean", alternative="two-sided", keep_dist=keep_, seed=12345, plus1=False)
+            else:
+                r = guarded(_core.two_sample_shift, np.array(xs, dtype=float), np.array(ys, dtype=float), reps=reps_, stat="mean", alternative="two-sided", keep_dist=keep_, seed=12345, shift=0, plus1=False)
+            ctx.case(("zero-observed-asymmetric", tuple(xs), tuple(ys), keep_, fn_), True); ctx.count("observed-zero-asymmetric-distribution")
+            sd_ = (float(exact) * (1 - float(exact) / 2) / reps_) ** 0.5 + 1e-9      # crude bound on the standard error of 2 * (a binomial proportion)
+            if r[0] != "ok" or abs(float(r[1][0]) - float(exact)) > 6 * 2 * sd_:
+                ctx.violation("oracle", {"call": fn_, "x": xs, "y": ys, "stat": "mean", "alternative": "two-sided", "keep_dist": keep_, "reps": reps_, "seed": 12345,
+                                         "issue": "observed statistic exactly 0 with an asymmetric permutation distribution: the estimate is more than six standard errors from the exact two-sided value",
+                                         "exact": str(exact), "returned": str(r[1][0] if r[0] == "ok" else r[1:])[:80]}, site=fn_)
 
 
 def replay(rep):
